@@ -130,6 +130,9 @@ arr_real _from_file(const std::string& file, long count, endian order, long offs
             auto v = _from_bytes<T>(bytes.data(), order);
             res.push_back(v);
             --count;
+        } else {
+            //end of file or a read error (a directory opens but cannot be read): feof alone never becomes true
+            break;
         }
     }
 
